@@ -70,6 +70,27 @@ Theorem C01_pw_int_ok : forall k, (1 <= k)%nat -> PwOk (pw_int k).
 Proof. exact pw_int_ok. Qed.
 Print Assumptions C01_pw_int_ok.
 
+(** ======== generated arithmetic = model (Gen/Kernels.v is regenerated from the source on every check) ======== *)
+From TW Require Import Model.MatchSpec Model.Process Gen.Kernels Proofs.KernelsLink.
+(** the regenerated statements of _integral_matching_stretch, composed as in the source, are the model's [stretch] *)
+Definition gen_stretch_value (pw : Qc -> Qc) (r : rule) (x y : list Qc) (t : Qc) : val :=
+  let X := VV x in
+  let Y := VV y in
+  let integ := fun a b : val => VV (integ r (as_list a) (as_list b)) in
+  let ci := stretch__current_integral integ X Y in
+  let dp := stretch__delta_p (VS t) ci in
+  let w := if (length x =? 2)%nat then stretch__w_two_points else stretch__w pw (stretch__x_n2 X) X (stretch__delta_x X) in
+  let yh := match r with
+            | Trapezoid => stretch__y_hat_trapezoid dp w (stretch__delta_xi X)
+            | _ => stretch__y_hat_rectangle dp w (stretch__delta_xi X)
+            end in
+  stretch__res_y Y yh w.
+
+Theorem C01_generated_kernel : forall pw r x y t, known_rule r -> x <> [] -> length x = length y ->
+  gen_stretch_value pw r x y t = VV (stretch pw r x y t).
+Proof. exact gen_stretch. Qed.
+Print Assumptions C01_generated_kernel.
+
 Example C01_example :
   let x := map qz [0; 1; 2; 4; 5; 7; 8; 9; 11; 12; 13]%Z in
   let y := map qz [1; 3; 2; 5; 4; 4; 0; 1; 2; 2; 6]%Z in
